@@ -106,7 +106,8 @@ func (e *PathMatchExpression) expandPaths(sub *PathMatchExpression) {
 	for i, dest := range e.paths {
 		for j, src := range sub.paths {
 			k := (i * len(sub.paths)) + j
-			expanded[k] = append(dest, src...)
+			// own backing array per path: dest is shared by every j
+			expanded[k] = append(append(make(segments, 0, len(dest)+len(src)), dest...), src...)
 		}
 	}
 	e.paths = expanded
@@ -167,6 +168,17 @@ func (e *PathMatchExpression) addSegment(ident string) {
 //	candidate : some/path=key/more/path/here/and/here
 //	slice     :               and/here
 func (e *PathMatchExpression) PathMatches(base *Path, candidate *Path) bool {
+	return e.pathMatches(base, candidate, false)
+}
+
+// PathLeadsTo is like PathMatches but is also true for the nodes on the way
+// down to a selected path, i.e. when candidate is an ancestor of what a
+// selector names.  With selector a/b/c, a and a/b lead to it, a/x does not.
+func (e *PathMatchExpression) PathLeadsTo(base *Path, candidate *Path) bool {
+	return e.pathMatches(base, candidate, true)
+}
+
+func (e *PathMatchExpression) pathMatches(base *Path, candidate *Path, ancestorsToo bool) bool {
 	// NOTE: empty selector means select everything
 	if len(e.paths) == 0 {
 		return true
@@ -178,39 +190,41 @@ func (e *PathMatchExpression) PathMatches(base *Path, candidate *Path) bool {
 			return true
 		}
 
-		if e.match(path, base, candidate) {
+		if e.match(path, base, candidate, ancestorsToo) {
 			return true
 		}
 	}
 	return false
 }
 
-func (e *PathMatchExpression) match(segs segments, base *Path, candidate *Path) bool {
-	p := candidate
-	j := (candidate.Len() - base.Len()) - 1
-
-	// start navigation at the end of the tail as it would likely be more efficient the longer
-	// the path
-	for i := len(segs) - 1; i >= 0; {
-
-		// we keep peeling back slice as long as it continues to match candidate as we
-		// peel that back as well.
-		if j == i {
-			if p.Meta.Ident() != segs[i] {
-				return false
-			}
-			i--
-		}
-		p = p.Parent
-		if p == nil {
-			panic("illegal call : base was not found to be any parent of candidate")
-		}
-		j--
+func (e *PathMatchExpression) match(segs segments, base *Path, candidate *Path, ancestorsToo bool) bool {
+	// idents of candidate below base, collected from the tail
+	n := candidate.Len() - base.Len()
+	if n <= 0 {
+		return false
 	}
-
-	// the subpath AFTER base path matches, now we have to see if we have same
-	// base paths
-	return p.EqualNoKey(base)
+	idents := make([]string, n)
+	p := candidate
+	for k := n - 1; k >= 0; k-- {
+		idents[k] = p.Meta.Ident()
+		p = p.Parent
+	}
+	if p == nil || !p.EqualNoKey(base) {
+		return false
+	}
+	if n < len(segs) {
+		// candidate is shallower than the selector: only an ancestor of a match
+		if !ancestorsToo {
+			return false
+		}
+		segs = segs[:n]
+	}
+	for i := range segs {
+		if idents[i] != segs[i] {
+			return false
+		}
+	}
+	return true
 }
 
 func (e *PathMatchExpression) String() string {
